@@ -86,25 +86,6 @@ theorem create_refines (a b : Bytes) (A B : Members)
   obtain ⟨out, h1, h2⟩ := create_value a b A B ha hb
   exact ⟨out, _, h1, h2, getDiff_refines A B hA hB, noDup_getDiff_anyOf A B⟩
 
-/-- a `null` root reads as the empty object -/
-theorem create_null_left (a b : Bytes) (B : Members)
-    (ha : parseValueOf a = some .null) (hb : parseValueOf b = some (.obj B)) :
-    ∃ out, createMergePatch a b = .ok out ∧
-      parseValueOf out = some (.obj (getDiff [] (anyOfM B []))) := by
-  obtain ⟨bms, pb, rfl⟩ := parse_obj hb
-  unfold parseValueOf at ha
-  cases pa : parseCst a with
-  | none => simp [pa] at ha
-  | some ca =>
-    simp only [pa, Option.map_some, Option.some.injEq] at ha
-    have na : ca.isArr = false := by cases ca <;> simp [Cst.valueOf, Cst.isArr] at ha ⊢
-    have hco : createObject ca (.obj bms) = .ok (.obj (getDiff [] (anyOfM (Cst.valueOfM bms) []))) := by
-      rw [createObject_eq, ha]; rfl
-    rw [createMergePatch_nonarr a b _ _ pa pb na rfl, hco]
-    refine ⟨_, rfl, ?_⟩
-    exact parse_print_marshal_GV true _
-      (GV_createObject maxDepth _ _ _ (by decide) (GC_of_parse a _ pa) (GC_of_parse b _ pb) hco)
-
 /-! ### round trip through the library's own `MergePatch` -/
 
 /-- **round trip at byte level**: applying the produced patch to the original with `MergePatch`
@@ -194,18 +175,18 @@ theorem create_array_refines (a b : Bytes) (As Bs : List Members)
 
 /-! ### rejections -/
 
-/-- the roots `CreateMergePatch` accepts: both non-arrays readable as maps (object or `null`),
-or two arrays of equal length whose elements are all readable as maps.  Everything else is an
-error; the model never panics here. -/
+/-- the roots `CreateMergePatch` accepts: two objects, or two arrays of equal length whose
+elements are all objects.  Everything else — `null` included, at the root or as an array element —
+is an error; the model never panics here. -/
 theorem create_rejects (a b : Bytes) :
     ((parseCst a = none ∨ parseCst b = none) → createMergePatch a b = .err .badDoc) ∧
     (∀ ca cb, parseCst a = some ca → parseCst b = some cb →
       (ca.isArr ≠ cb.isArr → createMergePatch a b = .err .badMergeTypes) ∧
-      (ca.isArr = false → cb.isArr = false → (okRoot ca = false ∨ okRoot cb = false) →
+      (ca.isArr = false → cb.isArr = false → (ca.isObj = false ∨ cb.isObj = false) →
         createMergePatch a b = .err .badDoc) ∧
       (∀ xs ys, ca = .arr xs → cb = .arr ys →
         (xs.length ≠ ys.length → createMergePatch a b = .err .badDoc) ∧
-        (xs.length = ys.length → ((∃ x ∈ xs, okRoot x = false) ∨ (∃ y ∈ ys, okRoot y = false)) →
+        (xs.length = ys.length → ((∃ x ∈ xs, x.isObj = false) ∨ (∃ y ∈ ys, y.isObj = false)) →
           createMergePatch a b = .err .badDoc))) := by
   refine ⟨createMergePatch_malformed a b, ?_⟩
   intro ca cb pa pb
@@ -214,6 +195,7 @@ theorem create_rejects (a b : Bytes) :
     rw [createMergePatch_nonarr a b ca cb pa pb na nb]
     rcases createObject_err ca cb with ⟨v, hv⟩ | he
     · have := (createObject_ok_iff ca cb).1 ⟨v, hv⟩
+      simp only [okRoot] at this
       rcases hbad with h | h
       · rw [this.1] at h; cases h
       · rw [this.2] at h; cases h
@@ -225,20 +207,23 @@ theorem create_rejects (a b : Bytes) :
     rw [if_neg (by simpa using hl)]
     rcases createArray_err xs ys with ⟨vs, hvs⟩ | he
     · have := (createArray_ok_iff xs ys hl).1 ⟨vs, hvs⟩
+      simp only [okRoot] at this
       rcases hbad with ⟨x, hx, h⟩ | ⟨y, hy, h⟩
       · rw [this.1 x hx] at h; cases h
       · rw [this.2 y hy] at h; cases h
     · rw [he]
 
-/-- conversely these are the only failures: with acceptable roots the call succeeds -/
+/-- conversely these are the only failures: two objects, or two equal-length arrays of objects,
+are accepted -/
 theorem create_accepts (a b : Bytes) (ca cb : Cst) (pa : parseCst a = some ca) (pb : parseCst b = some cb) :
-    (ca.isArr = false → cb.isArr = false → okRoot ca = true → okRoot cb = true →
-      ∃ out, createMergePatch a b = .ok out) ∧
+    (ca.isObj = true → cb.isObj = true → ∃ out, createMergePatch a b = .ok out) ∧
     (∀ xs ys, ca = .arr xs → cb = .arr ys → xs.length = ys.length →
-      (∀ x ∈ xs, okRoot x = true) → (∀ y ∈ ys, okRoot y = true) →
+      (∀ x ∈ xs, x.isObj = true) → (∀ y ∈ ys, y.isObj = true) →
       ∃ out, createMergePatch a b = .ok out) := by
   constructor
-  · intro na nb ha hb
+  · intro ha hb
+    have na : ca.isArr = false := by cases ca <;> simp [Cst.isObj, Cst.isArr] at ha ⊢
+    have nb : cb.isArr = false := by cases cb <;> simp [Cst.isObj, Cst.isArr] at hb ⊢
     obtain ⟨v, hv⟩ := (createObject_ok_iff ca cb).2 ⟨ha, hb⟩
     rw [createMergePatch_nonarr a b ca cb pa pb na nb, hv]
     exact ⟨_, rfl⟩
@@ -247,6 +232,76 @@ theorem create_accepts (a b : Bytes) (ca cb : Cst) (pa : parseCst a = some ca) (
     obtain ⟨vs, hvs⟩ := (createArray_ok_iff xs ys hl).2 ⟨hx, hy⟩
     rw [createMergePatch_arr a b xs ys pa pb, if_neg (by simpa using hl), hvs]
     exact ⟨_, rfl⟩
+
+/-! ### `null` is rejected (a nil map), at the root and as an array element -/
+
+theorem isObj_false_of_null {c : Cst} (h : c.valueOf = .null) : c.isObj = false := by
+  cases c <;> simp [Cst.valueOf, Cst.isObj] at h ⊢
+
+theorem isArr_false_of_null {c : Cst} (h : c.valueOf = .null) : c.isArr = false := by
+  cases c <;> simp [Cst.valueOf, Cst.isArr] at h ⊢
+
+theorem mem_valueOfL : ∀ (cs : List Cst) (v : Value), v ∈ Cst.valueOfL cs → ∃ c ∈ cs, c.valueOf = v
+  | [], _, h => by simp [Cst.valueOfL] at h
+  | c :: cs, v, h => by
+    simp only [Cst.valueOfL, List.mem_cons] at h
+    rcases h with h | h
+    · exact ⟨c, List.mem_cons_self .., h.symm⟩
+    · obtain ⟨c', hc', e⟩ := mem_valueOfL cs v h
+      exact ⟨c', List.mem_cons_of_mem _ hc', e⟩
+
+/-- a `null` root on either side is an error, whatever the other text is: `badMergeTypes` against
+an array, `badDoc` otherwise (ill-formed other text included) -/
+theorem create_null_rejected (a b : Bytes)
+    (h : parseValueOf a = some .null ∨ parseValueOf b = some .null) :
+    createMergePatch a b = .err .badDoc ∨ createMergePatch a b = .err .badMergeTypes := by
+  have rej := create_rejects a b
+  cases pa : parseCst a with
+  | none => exact Or.inl (rej.1 (Or.inl pa))
+  | some ca =>
+    cases pb : parseCst b with
+    | none => exact Or.inl (rej.1 (Or.inr pb))
+    | some cb =>
+      have r := rej.2 ca cb pa pb
+      have hnull : ca.valueOf = .null ∨ cb.valueOf = .null := by
+        rcases h with h | h
+        · left; simpa [parseValueOf, pa] using h
+        · right; simpa [parseValueOf, pb] using h
+      by_cases hmix : ca.isArr = cb.isArr
+      · left
+        have hboth : ca.isArr = false ∧ cb.isArr = false := by
+          rcases hnull with hn | hn
+          · have := isArr_false_of_null hn; exact ⟨this, by rw [← hmix]; exact this⟩
+          · have := isArr_false_of_null hn; exact ⟨by rw [hmix]; exact this, this⟩
+        refine r.2.1 hboth.1 hboth.2 ?_
+        rcases hnull with hn | hn
+        · exact Or.inl (isObj_false_of_null hn)
+        · exact Or.inr (isObj_false_of_null hn)
+      · exact Or.inr (r.1 hmix)
+
+theorem create_null_rejected' (a b : Bytes)
+    (h : parseValueOf a = some .null ∨ parseValueOf b = some .null) :
+    ∃ e, createMergePatch a b = .err e := by
+  rcases create_null_rejected a b h with h | h <;> exact ⟨_, h⟩
+
+/-- two arrays one of which has a `null` element: `badDoc` (through `createArray`) -/
+theorem create_null_elem_rejected (a b : Bytes) (xs ys : List Value)
+    (ha : parseValueOf a = some (.arr xs)) (hb : parseValueOf b = some (.arr ys))
+    (h : Value.null ∈ xs ∨ Value.null ∈ ys) :
+    createMergePatch a b = .err .badDoc := by
+  obtain ⟨cxs, pa, ex⟩ := parse_arr ha
+  obtain ⟨cys, pb, ey⟩ := parse_arr hb
+  have r := ((create_rejects a b).2 _ _ pa pb).2.2 cxs cys rfl rfl
+  by_cases hl : cxs.length = cys.length
+  · refine r.2 hl ?_
+    rcases h with h | h
+    · rw [← ex] at h
+      obtain ⟨c, hc, e⟩ := mem_valueOfL cxs _ h
+      exact Or.inl ⟨c, hc, isObj_false_of_null e⟩
+    · rw [← ey] at h
+      obtain ⟨c, hc, e⟩ := mem_valueOfL cys _ h
+      exact Or.inr ⟨c, hc, isObj_false_of_null e⟩
+  · exact r.1 hl
 
 /-! ### the hypotheses are satisfiable -/
 
@@ -277,10 +332,13 @@ example : (match createMergePatch (ascii "1") (ascii "{}") with | .err e => some
 example : (match createMergePatch (ascii "[{\"a\":1},{}]") (ascii "[{\"a\":2},{\"b\":[]}]") with | .ok o => some o | _ => none) =
     some (ascii "[{\"a\":2},{\"b\":[]}]") := by decide +kernel
 
-/-- a `null` original: everything is an addition -/
+/-- a `null` original or target is rejected; so is a `null` array element -/
 example : (parseValueOf (ascii "null")).map Value.isNull = some true ∧
-    (match createMergePatch (ascii "null") (ascii "{\"b\":1,\"a\":{}}") with | .ok o => some o | _ => none) =
-      some (ascii "{\"a\":{},\"b\":1}") := by decide +kernel
+    (match createMergePatch (ascii "null") (ascii "{\"b\":1}") with | .err e => some e | _ => none) = some .badDoc ∧
+    (match createMergePatch (ascii "{}") (ascii "null") with | .err e => some e | _ => none) = some .badDoc ∧
+    (match createMergePatch (ascii "null") (ascii "[]") with | .err e => some e | _ => none) = some .badMergeTypes ∧
+    (match createMergePatch (ascii "[null]") (ascii "[{}]") with | .err e => some e | _ => none) = some .badDoc := by
+  decide +kernel
 
 -- #print axioms getDiff_refines
 -- #print axioms anyOf_eqv
@@ -292,6 +350,8 @@ example : (parseValueOf (ascii "null")).map Value.isNull = some true ∧
 -- #print axioms create_array_refines
 -- #print axioms create_rejects
 -- #print axioms create_accepts
+-- #print axioms create_null_rejected
+-- #print axioms create_null_elem_rejected
 
 end C03
 end JP
